@@ -1,5 +1,8 @@
 use alloc::sync::Arc;
 use alloc::task::Wake;
+#[cfg(futures_concurrency_verif)]
+use crate::__verif_sync::Mutex;
+#[cfg(not(futures_concurrency_verif))]
 use std::sync::Mutex;
 
 use super::ReadinessVec;
